@@ -96,9 +96,9 @@ Print Assumptions C01_reservations_survive_release_of_other_nodes.
 
 (* the property over whole histories of one incarnation without node deletion *)
 Theorem C01_no_two_nodes_overlap_in_any_history_without_node_deletion :
-  forall po lab pre s1 s2 outs ops,
-  Forall user_op pre -> (forall s, s1 = Some s -> wf_cidr s) -> (forall s, s2 = Some s -> wf_cidr s) -> Forall quiet_op ops ->
-  let w := run po lab init_world (pre ++ Construct s1 s2 outs :: ops) in
+  forall po lab pre s1 s2 outs dp ops,
+  Forall user_op pre -> (forall s, s1 = Some s -> wf_cidr s) -> (forall s, s2 = Some s -> wf_cidr s) -> wf_dp dp -> Forall quiet_op ops ->
+  let w := run po lab init_world (pre ++ Construct s1 s2 outs dp :: ops) in
   forall a b, In a (w_nodes w) -> In b (w_nodes w) -> an_name a <> an_name b ->
   forall c d, node_cidr a c -> node_cidr b d -> overlapb c d = false.
 Proof. exact no_overlap_in_quiet_histories. Qed.
@@ -114,7 +114,7 @@ Example C01_history_nonvacuous :
               UCreateNode [110;49] [] []; UCreateNode [110;50] [] []] in
   let ops := [StartInformers; ProcCC UOk; ProcCC UOk; ProcNode [PTimeoutApplied; PFail; PFail]; ProcNode [POk]] in
   Forall user_op pre /\ Forall quiet_op ops /\
-  map (fun a => (an_name a, an_cidrs a)) (w_nodes (run po0 lab0 init_world (pre ++ Construct None None [] :: ops)))
+  map (fun a => (an_name a, an_cidrs a)) (w_nodes (run po0 lab0 init_world (pre ++ Construct None None [] [] :: ops)))
   = [([110;49], [PGood (mkCidr V4 167772160 28) true]); ([110;50], [PGood (mkCidr V4 167772176 28) true])].
 Proof.
   cbv zeta. split; [repeat constructor; cbn; try discriminate; unfold good_obj, good_field, good_range, wf_cidr; cbn; repeat split; try lia; try discriminate; intros [? _]; discriminate|].
@@ -123,10 +123,10 @@ Qed.
 
 (* the property over whole histories of one incarnation WITH node deletion (well-behaved informer) *)
 Theorem C01_no_two_holders_overlap_in_any_history_with_node_deletion :
-  forall po lab pre s1 s2 outs ops,
-  Forall user_op pre -> (forall s, s1 = Some s -> wf_cidr s) -> (forall s, s2 = Some s -> wf_cidr s) -> Forall tame_op ops ->
+  forall po lab pre s1 s2 outs dp ops,
+  Forall user_op pre -> (forall s, s1 = Some s -> wf_cidr s) -> (forall s, s2 = Some s -> wf_cidr s) -> wf_dp dp -> Forall tame_op ops ->
   NoDup (flat_map created (pre ++ ops)) ->
-  let w := run po lab init_world (pre ++ Construct s1 s2 outs :: ops) in
+  let w := run po lab init_world (pre ++ Construct s1 s2 outs dp :: ops) in
   forall n1 c1 n2 c2, holder w n1 c1 -> holder w n2 c2 -> n1 <> n2 -> overlapb c1 c2 = false.
 Proof. exact no_overlap_with_node_deletion. Qed.
 Print Assumptions C01_no_two_holders_overlap_in_any_history_with_node_deletion.
@@ -139,7 +139,7 @@ Example C01_deletion_history_nonvacuous :
   let ops := [StartInformers; ProcCC UOk; ProcNode [POk]; DeliverNode; UDeleteNode [110;49]; DeliverNode; UCreateNode [110;50] [] [];
               DeliverNode; ProcNode [POk]; ProcNode [POk]] in
   Forall user_op pre /\ Forall tame_op ops /\ NoDup (flat_map created (pre ++ ops)) /\
-  map (fun a => (an_name a, an_cidrs a)) (w_nodes (run po0 lab0 init_world (pre ++ Construct None None [] :: ops)))
+  map (fun a => (an_name a, an_cidrs a)) (w_nodes (run po0 lab0 init_world (pre ++ Construct None None [] [] :: ops)))
   = [([110;50], [PGood (mkCidr V4 167772160 28) true])].
 Proof.
   cbv zeta. split; [repeat constructor; cbn; try discriminate; unfold good_obj, good_field, good_range, wf_cidr; cbn; repeat split; try lia; try discriminate; intros [? _]; discriminate|].
@@ -161,8 +161,8 @@ Example C01_restart_history_nonvacuous :
   let po0 : parse_oracle := fun _ => Some [] in
   let lab0 : label_oracle := fun k => [cl k] in
   let ops := [UCreateCC (mkCCObj [99] (FOk (mkCidr V4 167772160 26)) FEmpty 4 (Some [107]) [] false 1 0 0); UCreateNode [110;49] [] [];
-              Construct None None []; StartInformers; ProcCC UOk; ProcNode [POk]; Crash; UCreateNode [110;50] [] [];
-              Construct None None []; StartInformers; ProcCC UOk; ProcNode [POk]; ProcNode [POk]] in
+              Construct None None [] []; StartInformers; ProcCC UOk; ProcNode [POk]; Crash; UCreateNode [110;50] [] [];
+              Construct None None [] []; StartInformers; ProcCC UOk; ProcNode [POk]; ProcNode [POk]] in
   Forall tame3_op ops /\ NoDup (flat_map created ops) /\
   map (fun a => (an_name a, an_cidrs a)) (w_nodes (run po0 lab0 init_world ops))
   = [([110;49], [PGood (mkCidr V4 167772160 28) true]); ([110;50], [PGood (mkCidr V4 167772176 28) true])].
@@ -187,7 +187,7 @@ Example C01_valid_history_nonvacuous :
   let po0 : parse_oracle := fun _ => Some [] in
   let lab0 : label_oracle := fun k => [cl k] in
   let ops := [UCreateNode [110;48] [] [PGood (mkCidr V4 167772160 27) true];
-              Construct None None []; StartInformers;
+              Construct None None [] []; StartInformers;
               UCreateCC (mkCCObj [99] (FOk (mkCidr V4 167772160 26)) FEmpty 4 (Some [107]) [] false 1 0 0); DeliverCC; ProcCC UOk;
               UCreateNode [110;49] [] []; UCreateNode [110;50] [] []; DeliverNode; DeliverNode; ProcNode [POk]; ProcNode [POk]; ProcNode [POk]] in
   valid po0 lab0 init_world ops /\
@@ -204,7 +204,7 @@ Proof.
           end).
   all: cbn [op_ok]; try exact I.
   all: try (unfold good_obj, good_field, good_range, wf_cidr; cbn; repeat split; try lia; try discriminate; intros [? _]; discriminate).
-  all: try (split; intros ? E; discriminate E).
+  all: try (split; [intros ? E; discriminate E|split; [intros ? E; discriminate E|constructor]]).
   all: try (split; [cbn; tauto|split; [constructor|left; reflexivity]]).
   split; [cbn; tauto|]. split; [repeat constructor; unfold wf_pcidr, wf_cidr; cbn; repeat split; try lia; reflexivity|].
   right. split; [reflexivity|]. intros c cn Hc n2 d [(a & [] & _)|(x & cn2 & [] & _)].
@@ -233,7 +233,7 @@ Example C01_informer_contract_history_nonvacuous :
   let po0 : parse_oracle := fun _ => Some [] in
   let lab0 : label_oracle := fun k => [cl k] in
   let ops := [UCreateCC (mkCCObj [99] (FOk (mkCidr V4 167772160 26)) FEmpty 4 (Some [107]) [] false 1 0 0);
-              Construct None None []; StartInformers; ProcCC UOk;
+              Construct None None [] []; StartInformers; ProcCC UOk;
               UCreateNode [110;49] [] []; DeliverNode; ProcNode [POk]; UDeleteNode [110;49]; RelistNodes;
               UCreateNode [110;50] [] []; DeliverNode; ProcNode [POk]; DeliverNode; UDeleteNode [110;50]; DeliverNodeTombstone;
               UCreateNode [110;51] [] []; UCreateNode [110;52] [] []; RelistNodes; ProcNode [POk]; ProcNode [POk]; ProcNode [POk]; ProcNode [POk]] in
@@ -252,5 +252,5 @@ Proof.
   all: cbn [op_ok4 op_ok]; try exact I.
   all: try (unfold good_obj, good_field, good_range, wf_cidr; cbn; repeat split; try lia; try discriminate; intros [? _]; discriminate).
   all: try (split; [cbn; tauto|split; [constructor|left; reflexivity]]).
-  all: try (split; intros ? E; discriminate E).
+  all: try (split; [intros ? E; discriminate E|split; [intros ? E; discriminate E|constructor]]).
 Qed.
